@@ -77,6 +77,8 @@ type c02Facts struct {
 	delivered, bounced   map[string]bool
 	noResend             map[string]bool // delivered, and a later attempt of the message had already begun
 	startedAfterDelivery map[string]bool
+	// failed terminally before the crash, report suppressed (null sender)
+	suppressed map[string]bool
 }
 
 func c02FactsOf(markers []string) c02Facts {
@@ -133,6 +135,97 @@ func c02FactsOf(markers []string) c02Facts {
 		}
 	}
 	return f
+}
+
+// c02Suppressed lists the recipients of null-sender messages that had failed
+// terminally before the crash: no report exists for them (reports to the null
+// sender are suppressed), so "reported as failed" cannot be observed; their
+// terminal failure is derived from the attempts that had completed (markers)
+// and the scenario's script, with the rules of the C01 reference ledger.
+func c02Suppressed(sc c02Scenario, markers []string) map[string]bool {
+	out := map[string]bool{}
+	for _, m := range sc.Msgs {
+		if m.From != "" {
+			continue
+		}
+		pending := append([]string{}, m.Rcpts...)
+		tries := map[string]int{}
+		class := func(n int, stage, rcpt string) int {
+			if c, ok := sc.Script[fmt.Sprintf("%s/%d/%s/%s", m.ID, n, stage, rcpt)]; ok {
+				return c
+			}
+			return qhOK
+		}
+		// attempts of m whose outcome was decided before the crash
+		n := 0
+		for i, mk := range markers {
+			p := strings.Split(mk, ":")
+			if !(p[0] == "target" && p[1] == "start" && p[2] == m.ID) {
+				continue
+			}
+			n++
+			decided := class(n, "start", "") != qhOK
+			for _, later := range markers[i+1:] {
+				q := strings.Split(later, ":")
+				if q[0] == "target" && q[2] == m.ID && (q[1] == "abort" || q[1] == "commit") {
+					decided = true
+				}
+				if q[0] == "target" && q[1] == "start" && q[2] == m.ID {
+					break
+				}
+			}
+			if !decided {
+				break
+			}
+			res := map[string]int{}
+			if c0 := class(n, "start", ""); c0 != qhOK {
+				for _, r := range pending {
+					res[r] = c0
+				}
+			} else {
+				var acc []string
+				for _, r := range pending {
+					if c := class(n, "rcpt", r); c != qhOK {
+						res[r] = c
+					} else {
+						acc = append(acc, r)
+					}
+				}
+				allFailed := true
+				for _, r := range acc {
+					c := class(n, "body", "")
+					if sc.Partial {
+						c = class(n, "status", r)
+					}
+					if c != qhOK {
+						res[r] = c
+					} else {
+						allFailed = false
+					}
+				}
+				if cc := class(n, "commit", ""); !allFailed && cc != qhOK {
+					for _, r := range acc {
+						res[r] = cc
+					}
+				}
+			}
+			var next []string
+			for _, r := range pending {
+				c, bad := res[r]
+				if !bad {
+					continue
+				}
+				if qhRetryable(c) && tries[r]+1 < sc.MaxTries {
+					tries[r]++
+					next = append(next, r)
+				} else {
+					out[r] = true
+				}
+			}
+			pending = next
+		}
+	}
+	return out
 }
 
 type c02Case struct {
@@ -270,7 +363,7 @@ func c02Judge(sc c02Scenario, facts c02Facts, rec c02Run, dir string) (string, s
 			continue
 		}
 		for _, r := range m.Rcpts {
-			if !(facts.delivered[r] || facts.bounced[r] || offered[r] || bouncedAfter[r]) {
+			if !(facts.delivered[r] || facts.bounced[r] || offered[r] || bouncedAfter[r] || facts.suppressed[r]) {
 				return "C02:accepted-mail-lost", fmt.Sprintf("message %s was acknowledged before the crash; recipient %s was neither delivered nor reported before it and is not attempted after restart (spool after recovery: %v)", m.ID, r, qhSpoolFiles(dir))
 			}
 		}
@@ -305,6 +398,7 @@ func TestVerifC02(t *testing.T) {
 	os.MkdirAll(scratch, 0o755)
 	defer os.RemoveAll(scratch)
 	r.Rule("each scenario (1-3 messages, 1-3 recipients, scripted temporary/permanent failures at recipient/body/status/commit stage, aborts, max_tries exhaustion) runs once on the real queue with every mutating file operation logged; for every crash point i (before each operation) the states prefix(i), torn(i,k) for k in {1, n/2, n-1} and unsynced(i) are materialised and recovered by a fresh real queue (two recovery scripts: accept all / first attempt fails temporarily), recursively for every crash point inside the recovery run (depth 2); oracle: acknowledged mail delivered, reported or re-attempted; aborted mail never delivered; only stored recipients attempted; no re-send once a later attempt had begun; no panic, hang or .meta_broken. Non-trivial: distinct crash states whose spool content differs from the previous crash state of the same scenario")
+	r.Assume("a recipient of a null-sender message that failed terminally before the crash (derived from the completed attempts and the script) counts as reported: reports to the null sender are suppressed")
 	r.Assume("directory operations (create, rename, remove) are atomic, ordered and durable; file data is durable only after Sync in the 'unsynced' variant")
 	r.Assume("content of messages that were never acknowledged is not judged")
 	scs := c02Scenarios(vx.Thorough())
@@ -402,6 +496,7 @@ func TestVerifC02(t *testing.T) {
 						return
 					}
 					facts := c02FactsOf(cp.markers)
+					facts.suppressed = c02Suppressed(sc, cp.markers)
 					wantDepth2 := (depth2[sc.Name] || len(sc.Msgs) == 1 || vx.Thorough()) && v.torn == 0
 					rec := c02Recover(di, sc, mode, orig.endAt+time.Hour, wantDepth2)
 					r.Eval()
@@ -451,6 +546,7 @@ func TestVerifC02(t *testing.T) {
 							return
 						}
 						f2 := c02FactsOf(append(append([]string{}, cp.markers...), vos.MarkersBefore(rec.ops, j)...))
+						f2.suppressed = facts.suppressed // recovery scripts never fail a recipient terminally
 						rec2 := c02Recover(dj, sc, 0, rec.endAt+2*time.Hour, false)
 						r.Eval()
 						depth2Recoveries++
